@@ -720,6 +720,15 @@ func (r *runner) opPausedPersist(id int, fail bool) {
 		os.Exit(3)
 	}
 	// step 1 done: fresh maps, tempstore interposed
+	_, _, tMem, tStor := mapIdentity(n.d.Store)
+	aliased := func() string {
+		// are the store's maps now the very map objects the tempstore held?
+		mem, stor, _, _ := mapIdentity(n.d.Store)
+		if mem == tMem && stor == tStor {
+			return " alias=1"
+		}
+		return " alias=0"
+	}
 	t := &node{id: len(w.nodes), kind: "cached", ps: n.ps, temp: true, own: n.own}
 	w.nodes = append(w.nodes, t)
 	cnt := len(n.own)
@@ -733,7 +742,7 @@ func (r *runner) opPausedPersist(id int, fail bool) {
 	if fail {
 		rs := <-done
 		n.pause.mode.Store(0)
-		obs := "ok"
+		obs := "ok" + aliased()
 		if rs.err == nil {
 			obs = "noerr"
 		}
@@ -759,7 +768,7 @@ func (r *runner) opPausedPersist(id int, fail bool) {
 	rs := <-done
 	n.pause.mode.Store(0)
 	n.ps = t.ps
-	obs := "ok"
+	obs := "ok" + aliased()
 	if rs.err != nil || rs.n != cnt {
 		obs = fmt.Sprintf("bad %d %v", rs.n, rs.err)
 	}
@@ -1281,6 +1290,10 @@ func runCaseOnce(o *hx.Out, f *hx.Flags, k int, kind string, nops int, corpus fu
 }
 
 func main() {
+	if os.Getenv("VERIF_STORE_CHILD") == "failrace" {
+		failRaceChild()
+		return
+	}
 	f := hx.ParseFlags()
 	o := hx.NewOut(f.Out)
 	defer o.Close()
@@ -1345,6 +1358,13 @@ func main() {
 	for i, n := 0, f.N(2, 20); i < n; i++ {
 		if f.Want(k) {
 			runBoltTxCase(o, f, k, f.N(80, 800))
+		}
+		k++
+	}
+	// readers racing a flush whose lower write fails (in a child process: the failure mode is a runtime crash)
+	for i, n := 0, f.N(1, 5); i < n; i++ {
+		if f.Want(k) {
+			runFailRaceCase(o, f, k)
 		}
 		k++
 	}
